@@ -624,14 +624,19 @@ func (sc *SubCache[EntityT, ExcerptT, CacheT]) entityUpdated(id entity.Id) error
 	sc.lru.Get(id)
 	// sc.excerpts[id] = bug2.NewBugExcerpt(b.bug, b.Snapshot())
 	sc.excerpts[id] = sc.makeExcerpt(e)
-	sc.mu.Unlock()
 
+	// Update the search index before releasing the lock: the excerpt and the indexed texts of an
+	// entity have to be written in the same order. Otherwise, of two concurrent updates of one
+	// entity, the one that read its texts first can index them last and the newer texts are not
+	// searchable until the next update of that entity.
 	index, err := sc.repo.GetIndex(sc.namespace)
 	if err != nil {
+		sc.mu.Unlock()
 		return err
 	}
 
 	err = index.IndexOne(e.Id().String(), sc.makeIndexData(e))
+	sc.mu.Unlock()
 	if err != nil {
 		return err
 	}
